@@ -312,20 +312,25 @@ theorem sendHeartbeatOne_shift {k : Nat} {h : HSt} (i : Nat) (hc : HClockOk k h)
     sendHeartbeatOne (h.shift k) i = ((sendHeartbeatOne h i).1.shift k, (sendHeartbeatOne h i).2) ∧
     (sendHeartbeatOne h i).1.ShiftOk k := by
   unfold sendHeartbeatOne
-  have eg : (h.shift k).st.devs[i]? = (h.st.devs[i]?).map (Dev.shift h.st.flavor k) := by simp [HSt.shift, St.shift]
-  rw [eg, HSt.shift_hb_get]
-  cases hd : h.st.devs[i]? with
-  | none => exact ⟨rfl, ho⟩
-  | some d =>
-    cases hb : h.hb[i]? with
+  have e0 : (h.shift k).st.claimMode = h.st.claimMode := rfl
+  rw [e0]
+  by_cases hm : ¬ h.st.claimMode = true
+  · simp only [if_pos hm]; exact ⟨by triv, ho⟩
+  · simp only [if_neg hm]
+    have eg : (h.shift k).st.devs[i]? = (h.st.devs[i]?).map (Dev.shift h.st.flavor k) := by simp [HSt.shift, St.shift]
+    rw [eg, HSt.shift_hb_get]
+    cases hd : h.st.devs[i]? with
     | none => exact ⟨rfl, ho⟩
-    | some b =>
-      simp only [Option.map_some]
-      have f3 : (b.shift k).sched.period = b.sched.period := (SyncSched.shift_fields k b.sched).1
-      have e4 : (h.shift k).st = h.st.shift k := rfl
-      obtain ⟨es, os, _⟩ := sendMsg_shift (setN2kPGN126993 b.sched.period 0xff) (some i) (s := h.st) hc.1 ho.1
-      rw [f3, e4, es]
-      exact ⟨rfl, os, ho.2.1, ho.2.2⟩
+    | some d =>
+      cases hb : h.hb[i]? with
+      | none => exact ⟨rfl, ho⟩
+      | some b =>
+        simp only [Option.map_some]
+        have f3 : (b.shift k).sched.period = b.sched.period := (SyncSched.shift_fields k b.sched).1
+        have e4 : (h.shift k).st = h.st.shift k := rfl
+        obtain ⟨es, os, _⟩ := sendMsg_shift (setN2kPGN126993 b.sched.period 0xff) (some i) (s := h.st) hc.1 ho.1
+        rw [f3, e4, es]
+        exact ⟨rfl, os, ho.2.1, ho.2.2⟩
 
 theorem openStepH_shift {k : Nat} {h : HSt} (hc : HClockOk k h) (ho : h.ShiftOk k) :
     openStepH (h.shift k) = (openStepH h).shift k ∧ (openStepH h).ShiftOk k ∧
@@ -418,13 +423,8 @@ theorem Op.apply_now (op : Op) (h : HSt) :
     simp only [Op.apply]
     by_cases h3 : h.st.openState = 3
     · simp only [if_pos h3]
-      unfold sendHeartbeatOne
-      cases h.st.devs[i]? with
-      | none => exact ⟨rfl, rfl⟩
-      | some d =>
-        cases h.hb[i]? with
-        | none => exact ⟨rfl, rfl⟩
-        | some b => have := sendMsg_same h.st (setN2kPGN126993 b.sched.period 0xff) (some i); exact ⟨this.2.1, this.1⟩
+      have := (sendHeartbeatOne_spec h i).2.2.1
+      exact ⟨this.2.1, this.1⟩
     · simp only [if_neg h3]; exact ⟨trivial, trivial⟩
   | set iv off dev => simp only [Op.apply]; rw [(set_st h iv off dev).1]; exact ⟨by triv, by triv⟩
   | claim i => have := startAddressClaim_same h.st i; exact ⟨this.2.1, this.1⟩
